@@ -62,6 +62,7 @@ CHECKS = {
     "C02": {
         "quick": [
             {"name": NODE + "ZZ_C02_V1", "reach": ["V1 end"] + OK_ALL, "bound": TXB + "; block with / without proposer; EndBlock"},
+            {"name": NODE + "ZZ_C17_E12", "reach": ["E12 succeeded", "E12 failed"], "bound": "value conservation across the EVM boundary for the modelled contract programs (see C17)", "validate": 10},
             {"name": STAKE + "ZZ_C11_B3", "reach": ["B3 end"], "bound": "3 staking/unstaking transactions in one block on one delegatee (delete / re-create / modify): every stake stays recorded exactly once with its power (value not destroyed)"},
             {"name": STAKE + "ZZ_C12_O3", "reach": ["O3 end"], "bound": "refund of <=3 matured unbonding stakes: owners credited exactly power x 10^18"},
             {"name": STAKE + "ZZ_C12_O4", "reach": [], "bound": "two genesis stakes unbonding (known finding C12-K1: one refund lost)"},
@@ -108,7 +109,7 @@ CHECKS = {
     },
     "C06": {
         "quick": [
-            {"name": NODE + "ZZ_C06_M1", "reach": ["M1 end"], "bound": "twin replicas; genesis with 4 validators (powers symbolic inside disjoint bands, so the stake limiter is active and the ranking fixed), 5 funded accounts, concrete Test1 governance parameters; blocks 1-2 empty; block 3 and block 4 each with one transaction from {delegation A3->A0/A1 of power 1 or 2^41, unstaking of a genesis stake, transfer A3->A4 of symbolic amount}; replica B additionally serves ONE request at one of 5 positions around block 3 (before BeginBlock, before DeliverTx, before EndBlock, before Commit, after Commit): CheckTx of a transaction of the same menu (or of block 3's own transaction) or a Query (account / delegatee / total power / gov params)", "validate": 8},
+            {"name": NODE + "ZZ_C06_M1", "reach": ["M1 end"], "bound": "twin replicas; genesis with 4 validators (powers symbolic inside disjoint bands, so the stake limiter is active and the ranking fixed), 5 funded accounts, concrete Test1 governance parameters; blocks 1-2 empty; block 3 and block 4 each with one transaction from {delegation A3->A0/A1 of power 1 or 2^41, unstaking of a genesis stake, transfer A3->A4 of symbolic amount, contract deployment by A3}; replica B additionally serves ONE request at one of 5 positions around block 3 (before BeginBlock, before DeliverTx, before EndBlock, before Commit, after Commit): CheckTx of a transaction of the same menu (or of block 3's own transaction) or a Query (account / delegatee / total power / gov params)", "validate": 8},
         ],
         "bounds": "one injected CheckTx/Query in 5 slots, 2 blocks observed (result codes, gas used, validator updates, application hash)",
         "outside": "more than one injected request (one suffices for a first divergence by the unwinding argument of DESIGN section 4/C06); interleavings finer than one ABCI call (the application mutex serialises them); symbolic governance parameters",
